@@ -1,3 +1,5 @@
+import Quanto.Tables
+import Quanto.Generated
 /-
 Property C05 — operations on quantized tensors equal the same operations on the dequantized
 values: exactly when the operation only moves data, within float rounding when it rescales,
@@ -621,5 +623,11 @@ example : specRescale f16 127 3 (.fin (1911 / 8192)) (.fin (1911 / 8192)) = true
 example : |(677 / 2048 : Rat) - 1 / 3| ≤ (129 / 16384 : Rat) / 2 + epsC01 f16 (1 / 3) (129 / 16384) 42 :=
   C05_requant_within_half_step_int8 f16 (by simp [WorkFmt]) (1 / 3) (129 / 16384) (by norm_num)
     (by norm_num) (by norm_num) 42 (677 / 2048) (by decide +kernel) (by decide +kernel)
+
+/-- the live dispatch tables (regenerated from the implementation on every run) are exactly the
+ops the model transcribes: an op added to or removed from a table breaks this obligation -/
+theorem C05_dispatch_table_pinned :
+    Generated.qbytesOps = modelQbytesOps ∧ Generated.qbitsOps = modelQbitsOps ∧ Generated.qtensorFuncs = modelQtensorFuncs := by
+  decide
 
 end Quanto
